@@ -71,7 +71,10 @@ class Run:
             with open(cfgpath) as f:
                 txt = f.read()
             for k, v in consts.items():
-                txt = re.sub(r"(?m)^(\s*%s\s*=\s*).*$" % re.escape(k), lambda m: m.group(1) + str(v), txt)
+                if isinstance(v, str) and v.startswith(k + " <-"):
+                    txt = re.sub(r"(?m)^(\s*)%s\s*(=|<-).*$" % re.escape(k), lambda m: m.group(1) + v, txt)
+                else:
+                    txt = re.sub(r"(?m)^(\s*%s\s*=\s*).*$" % re.escape(k), lambda m: m.group(1) + str(v), txt)
             cfgpath = os.path.join(self.specdir, "cfg", cfg + ".gen.cfg")
             with open(cfgpath, "w") as f:
                 f.write(txt)
